@@ -1,1 +1,1018 @@
-// Correspondence suites for property C04. Each suite is a #[test] fn named verif_c04_<suite>.
+// Correspondence / fault-injection suites for property C04 (MAC-checked arithmetic and openings).
+//
+//   c04_honest  real upgrade / multiply / linear ops / validate_record / reveal under TestWorld malicious contexts
+//               with the MAC-based validator (Fp31, Fp32BitPrime, Fp25519), record counts on and around the
+//               validator's batch size (records_per_batch = active work); plus the set of helper-to-helper
+//               channels (gate, direction, bytes) such a run uses
+//   c04_attack  the same runs with ONE message of one class altered by an additive error on the wire
+//               (upgrade, multiply value part, multiply MAC part, propagate u, propagate w, reveal r,
+//               check-zero multiply, check-zero reveal, final reveal), in the first and in later batches
+//   c04_reveal  malicious_reveal alone: full / partial, one tampered copy
+// (c04_pure lives in hooks/context.rs: it needs items private to protocol::context.)
+//
+// Requests:
+//   c04.honest <field> <rpb> <count> <seed> <prog> <inputs>
+//   c04.chan   <field> <rpb> <count> <seed> <prog> <inputs>
+//   c04.attack <field> <rpb> <count> <seed> <prog> <inputs> <corrupt 1|2|3> <class> <target> <dir L|R|-> <delta>
+//   c04.reveal <field> <seed> <x> <excluded 1|2|3|-> <attacker 1|2|3|-> <dest 1|2|3|-> <delta>
+// prog   = gates joined by `.`: `u` upgrade the next input, `m<i>:<j>` multiply wires, `a<i>:<j>` add, `s<i>:<j>`
+//          subtract, `n<i>` negate, `k<i>:<c>` multiply by the public constant c. Wires are numbered in order.
+// inputs = one `v:v:…` group per record, groups joined by `,`.
+// class  = `upgrade:<k>` | `mulx:<k>` | `mulrx:<k>` (k = gate index in prog) | `propu` | `propw` | `revealr` |
+//          `czmul` | `czreveal` | `reveal:<k>` (opening of wire k);  target = record index (per-record classes)
+//          or batch index (validator classes).
+// Responses:
+//   honest: `ok <w:w:…,…> mac` (opened wire values per record; `mac`: every rx reconstructs to r·x, all sharings
+//           consistent, all helpers opened the same values)
+//   attack: `abort:error` as soon as an honest helper returns an error (the error kind is not part of the response: the
+//           record that runs a batch's validation gets MaliciousSecurityCheckFailed / MaliciousRevealFailed, the
+//           other records of the batch get ParallelDZKPValidationFailed, and which one is first is a race)
+//           | `abort:hang` (nobody returned an error but the honest helpers never finish: a helper that stopped
+//           leaves unflushed messages behind) | `ok <values> -` | `untouched` (the targeted message was never seen)
+//   chan:   sorted `gate|src>dst|bytes` joined by `;`
+//   reveal: per helper `ok:<v>` | `none` | `fail`, joined by `,`
+use std::{
+    collections::BTreeMap,
+    sync::{
+        Arc, Mutex,
+        atomic::{AtomicUsize, Ordering},
+    },
+};
+
+use futures::{StreamExt, stream::FuturesUnordered};
+use typenum::Unsigned;
+
+use super::proto::*;
+use crate::{
+    error::Error,
+    ff::{Field, Fp31, Fp32BitPrime, Serializable, ec_prime_field::Fp25519},
+    helpers::{
+        HelperIdentity, Role,
+        in_memory_config::{InspectContext, StreamInterceptor},
+    },
+    protocol::{
+        RecordId,
+        basics::{SecureMul, malicious_reveal, reveal},
+        context::{Context, UpgradableContext, UpgradedContext, Validator, upgrade::Upgradable},
+    },
+    secret_sharing::{
+        SharedValue, SharedValueArray, Vectorizable,
+        replicated::{
+            ReplicatedSecretSharing,
+            malicious::{AdditiveShare as MaliciousReplicated, ThisCodeIsAuthorizedToDowngradeFromMalicious},
+            semi_honest::AdditiveShare as Replicated,
+        },
+    },
+    seq_join::SeqJoin,
+    test_fixture::{TestWorld, TestWorldConfig},
+    utils::NonZeroU32PowerOfTwo,
+};
+
+// ------------------------------------------------------------------------------------------ values
+
+/// decimal <-> little-endian bytes (Fp25519 does not fit a u128)
+pub fn dec_to_le(s: &str, len: usize) -> Vec<u8> {
+    let mut out = vec![0u8; len];
+    for c in s.bytes() {
+        assert!(c.is_ascii_digit(), "harness: bad number {s}");
+        let mut carry = u32::from(c - b'0');
+        for b in out.iter_mut() {
+            let v = u32::from(*b) * 10 + carry;
+            *b = (v & 0xff) as u8;
+            carry = v >> 8;
+        }
+        assert_eq!(carry, 0, "harness: number {s} does not fit {len} bytes");
+    }
+    out
+}
+
+pub fn le_to_dec(bytes: &[u8]) -> String {
+    let mut b = bytes.to_vec();
+    let mut digits = vec![];
+    while b.iter().any(|x| *x != 0) {
+        let mut rem = 0u32;
+        for x in b.iter_mut().rev() {
+            let v = (rem << 8) | u32::from(*x);
+            *x = (v / 10) as u8;
+            rem = v % 10;
+        }
+        digits.push(char::from(b'0' + rem as u8));
+    }
+    if digits.is_empty() {
+        return "0".into();
+    }
+    digits.iter().rev().collect()
+}
+
+pub fn val<F: Serializable>(s: &str) -> F {
+    F::deserialize_from_slice(&dec_to_le(s, F::Size::USIZE))
+}
+
+pub fn show<F: Serializable>(v: &F) -> String {
+    let mut buf = vec![0u8; F::Size::USIZE];
+    v.serialize_to_slice(&mut buf);
+    le_to_dec(&buf)
+}
+
+/// replicated sharing of `x` with shares drawn from `rng`
+fn share3<F: Field + Serializable>(rng: &mut Rng, x: F) -> [Replicated<F>; 3] {
+    let mut draw = || -> F {
+        let mut b = rng.bytes(F::Size::USIZE);
+        // keep prime-field encodings canonical: clear the top bits and fall back to small values
+        let n = b.len();
+        b[n - 1] &= 0x0f;
+        if n == 1 {
+            b[0] %= 31;
+        } else if n == 4 {
+            b[3] &= 0x7f;
+        }
+        F::deserialize_from_slice(&b)
+    };
+    let s0 = draw();
+    let s1 = draw();
+    let s2 = x - s0 - s1;
+    [Replicated::new(s0, s1), Replicated::new(s1, s2), Replicated::new(s2, s0)]
+}
+
+// ------------------------------------------------------------------------------------------ programs
+
+#[derive(Clone, Debug)]
+enum GateOp {
+    U,
+    M(usize, usize),
+    A(usize, usize),
+    S(usize, usize),
+    N(usize),
+    K(usize, String),
+}
+
+fn parse_prog(s: &str) -> Vec<GateOp> {
+    s.split('.')
+        .map(|g| {
+            let (op, rest) = g.split_at(1);
+            let p: Vec<&str> = rest.split(':').collect();
+            let n = |i: usize| p[i].parse::<usize>().unwrap();
+            match op {
+                "u" => GateOp::U,
+                "m" => GateOp::M(n(0), n(1)),
+                "a" => GateOp::A(n(0), n(1)),
+                "s" => GateOp::S(n(0), n(1)),
+                "n" => GateOp::N(n(0)),
+                "k" => GateOp::K(n(0), p[1].to_string()),
+                x => panic!("harness: bad gate {x}"),
+            }
+        })
+        .collect()
+}
+
+#[derive(Clone)]
+struct Spec {
+    rpb: usize,
+    count: usize,
+    seed: u64,
+    prog: Vec<GateOp>,
+    /// inputs[record][k]
+    inputs: Vec<Vec<String>>,
+}
+
+fn parse_spec(t: &[&str]) -> Spec {
+    let inputs: Vec<Vec<String>> =
+        t[6].split(',').map(|g| g.split(':').map(str::to_string).collect()).collect();
+    let spec = Spec {
+        rpb: t[2].parse().unwrap(),
+        count: t[3].parse().unwrap(),
+        seed: t[4].parse().unwrap(),
+        prog: parse_prog(t[5]),
+        inputs,
+    };
+    assert_eq!(spec.inputs.len(), spec.count, "harness: one input group per record");
+    spec
+}
+
+// ------------------------------------------------------------------------------------------ interceptor
+
+fn hid(h: HelperIdentity) -> u8 {
+    if h == HelperIdentity::ONE {
+        1
+    } else if h == HelperIdentity::TWO {
+        2
+    } else {
+        3
+    }
+}
+
+/// one message to alter: the `size` bytes at byte `offset` of the channel whose gate ends with `suffix`,
+/// from `src` to `dst`
+struct Target {
+    suffix: String,
+    src: u8,
+    dst: u8,
+    offset: usize,
+    size: usize,
+}
+
+/// Records the bytes seen per (gate, src, dst) channel and alters the targeted messages with `apply`.
+struct Tamper {
+    targets: Vec<Target>,
+    apply: Box<dyn Fn(&mut [u8]) + Send + Sync>,
+    seen: Mutex<BTreeMap<(String, u8, u8), usize>>,
+    hits: AtomicUsize,
+}
+
+impl Tamper {
+    fn new(targets: Vec<Target>, apply: Box<dyn Fn(&mut [u8]) + Send + Sync>) -> Self {
+        Tamper { targets, apply, seen: Mutex::new(BTreeMap::new()), hits: AtomicUsize::new(0) }
+    }
+
+    fn recorder() -> Self {
+        Self::new(vec![], Box::new(|_| {}))
+    }
+}
+
+impl StreamInterceptor for Tamper {
+    type Context = InspectContext;
+
+    fn peek(&self, ctx: &InspectContext, data: &mut Vec<u8>) {
+        if let InspectContext::MpcMessage { source, dest, gate, .. } = ctx {
+            let key = (gate.as_ref().to_string(), hid(*source), hid(*dest));
+            let before = {
+                let mut seen = self.seen.lock().unwrap();
+                let e = seen.entry(key.clone()).or_insert(0);
+                let b = *e;
+                *e += data.len();
+                b
+            };
+            for t in &self.targets {
+                if key.1 == t.src
+                    && key.2 == t.dst
+                    && key.0.ends_with(&t.suffix)
+                    && t.offset >= before
+                    && t.offset + t.size <= before + data.len()
+                {
+                    let i = t.offset - before;
+                    (self.apply)(&mut data[i..i + t.size]);
+                    self.hits.fetch_add(1, Ordering::SeqCst);
+                }
+            }
+        }
+    }
+}
+
+#[derive(Clone, Debug)]
+struct Attack {
+    corrupt: usize, // 0-based role index
+    class: String,
+    target: usize,
+    dir: char,
+}
+
+/// left / right peer of role index h (H1's right is H2, its left is H3)
+fn left_of(h: usize) -> usize {
+    (h + 2) % 3
+}
+fn right_of(h: usize) -> usize {
+    (h + 1) % 3
+}
+
+/// (gate suffix, destination role index, record id on that channel) of the attacked message
+fn locate(a: &Attack) -> (String, usize, usize) {
+    let c = a.corrupt;
+    let (name, arg) = match a.class.split_once(':') {
+        Some((n, k)) => (n, k.to_string()),
+        None => (a.class.as_str(), String::new()),
+    };
+    let rev_dest = if a.dir == 'L' { left_of(c) } else { right_of(c) };
+    match name {
+        // semi-honest multiplications send to the left peer
+        "upgrade" => (format!("/u{arg}/upgrade"), left_of(c), a.target),
+        "mulx" => (format!("/m{arg}"), left_of(c), a.target),
+        "mulrx" => (format!("/m{arg}/duplicate_multiply"), left_of(c), a.target),
+        // propagate_u_and_w sends to the right peer: u at 2*offset, w at 2*offset + 1
+        "propu" => ("/validate/propagate_u_and_w".into(), right_of(c), 2 * a.target),
+        "propw" => ("/validate/propagate_u_and_w".into(), right_of(c), 2 * a.target + 1),
+        "revealr" => ("/validate/reveal_r".into(), rev_dest, a.target),
+        "czmul" => ("/validate/check_zero/multiply_with_r".into(), left_of(c), a.target),
+        "czreveal" => ("/validate/check_zero/reveal_r".into(), rev_dest, a.target),
+        "reveal" => (format!("/o{arg}"), rev_dest, a.target),
+        x => panic!("harness: unknown attack class {x}"),
+    }
+}
+
+// ------------------------------------------------------------------------------------------ runs
+
+enum Outcome {
+    /// every helper we waited for returned Ok: opened[record][wire] per helper index, mac flag
+    Done(Vec<Option<Vec<Vec<String>>>>, bool),
+    Abort(String),
+}
+
+fn kind(e: &Error) -> String {
+    format!("{e:?}").chars().take_while(|c| c.is_alphanumeric() || *c == '_').collect()
+}
+
+/// lanes of a value written `l0+l1+…` (a single number = one lane)
+fn lanes_of(s: &str) -> Vec<&str> {
+    s.split('+').collect()
+}
+
+macro_rules! mac_runner {
+    ($name:ident, $f:ty, $n:expr) => {
+        async fn $name(spec: Spec, interceptor: Option<Arc<Tamper>>, corrupt: Option<usize>) -> Outcome {
+            type F = $f;
+            const N: usize = $n;
+            type Arr = <F as Vectorizable<N>>::Array;
+            let mut config = TestWorldConfig::default().with_seed(spec.seed);
+            if let Some(i) = interceptor {
+                config.stream_interceptor = i;
+            }
+            let world = TestWorld::new_with(config);
+            let mut rng = Rng(spec.seed ^ 0xC04);
+            // per helper: inputs[record][k], every lane shared independently
+            let mut per_helper: [Vec<Vec<Replicated<F, N>>>; 3] = [vec![], vec![], vec![]];
+            for rec in &spec.inputs {
+                let mut row: [Vec<Replicated<F, N>>; 3] = [vec![], vec![], vec![]];
+                for v in rec {
+                    let lanes = lanes_of(v);
+                    assert_eq!(lanes.len(), N, "harness: {N} lanes expected");
+                    let sh: Vec<[Replicated<F>; 3]> = lanes.iter().map(|l| share3::<F>(&mut rng, val::<F>(l))).collect();
+                    for h in 0..3 {
+                        let l: Arr = SharedValueArray::from_fn(|i| sh[i][h].left());
+                        let r: Arr = SharedValueArray::from_fn(|i| sh[i][h].right());
+                        row[h].push(Replicated::<F, N>::new_arr(l, r));
+                    }
+                }
+                for (h, r) in row.into_iter().enumerate() {
+                    per_helper[h].push(r);
+                }
+            }
+            let rpb = NonZeroU32PowerOfTwo::try_from(spec.rpb).expect("harness: rpb must be a power of two");
+            let count = spec.count;
+            let prog = &spec.prog;
+            let mut futs = world
+                .malicious_contexts()
+                .into_iter()
+                .zip(per_helper)
+                .enumerate()
+                .map(|(h, (ctx, inputs))| async move {
+                    let ctx = ctx.set_active_work(rpb).set_total_records(count);
+                    let v = ctx.validator::<F>();
+                    let m_ctx = v.context();
+                    let r = m_ctx
+                        .try_join(inputs.into_iter().enumerate().map(|(i, ins)| {
+                            let ctx = m_ctx.clone();
+                            async move {
+                                let rid = RecordId::from(i);
+                                let mut wires: Vec<MaliciousReplicated<F, N>> = vec![];
+                                let mut ins = ins.into_iter();
+                                for (k, g) in prog.iter().enumerate() {
+                                    let w = match g {
+                                        GateOp::U => {
+                                            ins.next()
+                                                .expect("harness: not enough inputs")
+                                                .upgrade(ctx.narrow(&format!("u{k}")), rid)
+                                                .await?
+                                        }
+                                        GateOp::M(a, b) => {
+                                            wires[*a].multiply(&wires[*b], ctx.narrow(&format!("m{k}")), rid).await?
+                                        }
+                                        GateOp::A(a, b) => &wires[*a] + &wires[*b],
+                                        GateOp::S(a, b) => &wires[*a] - &wires[*b],
+                                        GateOp::N(a) => -wires[*a].clone(),
+                                        GateOp::K(a, c) => &wires[*a] * &val::<F>(c),
+                                    };
+                                    wires.push(w);
+                                }
+                                let r = ctx.r(rid);
+                                ctx.validate_record(rid).await?;
+                                let mut opened: Vec<Vec<F>> = vec![];
+                                for (k, w) in wires.iter().enumerate() {
+                                    let o: Arr = reveal(ctx.narrow(&format!("o{k}")), rid, w).await?;
+                                    opened.push(o.into_iter().collect());
+                                }
+                                Ok::<_, Error>((wires, r, opened))
+                            }
+                        }))
+                        .await;
+                    drop(v);
+                    (h, r)
+                })
+                .collect::<FuturesUnordered<_>>();
+            let mut outs: [Option<Vec<(Vec<MaliciousReplicated<F, N>>, Replicated<F>, Vec<Vec<F>>)>>; 3] = [None, None, None];
+            let needed = |h: usize| Some(h) != corrupt;
+            while let Some((h, r)) = futs.next().await {
+                match r {
+                    Ok(v) => outs[h] = Some(v),
+                    // an honest helper returning an error is the abort; the others may be left waiting for it
+                    Err(e) if needed(h) => return Outcome::Abort(kind(&e)),
+                    Err(_) => {}
+                }
+                if (0..3).all(|h| !needed(h) || outs[h].is_some()) {
+                    break;
+                }
+            }
+            drop(futs);
+            let opened: Vec<Option<Vec<Vec<String>>>> = outs
+                .iter()
+                .map(|o| {
+                    o.as_ref().map(|v| {
+                        v.iter()
+                            .map(|(_, _, op)| {
+                                op.iter().map(|lanes| lanes.iter().map(show::<F>).collect::<Vec<_>>().join("+")).collect()
+                            })
+                            .collect()
+                    })
+                })
+                .collect();
+            // MAC / consistency check (meaningful when all three helpers finished)
+            let mut mac_ok = outs.iter().all(Option::is_some);
+            if mac_ok {
+                let o: Vec<_> = outs.iter().map(|x| x.as_ref().unwrap()).collect();
+                let vec_of = |a: &Arr| -> Vec<F> { a.clone().into_iter().collect() };
+                for i in 0..count {
+                    let r = o[0][i].1.left() + o[1][i].1.left() + o[2][i].1.left();
+                    for h in 0..3 {
+                        mac_ok &= o[h][i].1.right() == o[(h + 1) % 3][i].1.left();
+                    }
+                    for k in 0..o[0][i].0.len() {
+                        let xl = |h: usize| vec_of(o[h][i].0[k].x().access_without_downgrade().left_arr());
+                        let xr = |h: usize| vec_of(o[h][i].0[k].x().access_without_downgrade().right_arr());
+                        let ml = |h: usize| vec_of(o[h][i].0[k].rx().left_arr());
+                        let mr = |h: usize| vec_of(o[h][i].0[k].rx().right_arr());
+                        for lane in 0..N {
+                            let xv = xl(0)[lane] + xl(1)[lane] + xl(2)[lane];
+                            let rxv = ml(0)[lane] + ml(1)[lane] + ml(2)[lane];
+                            for h in 0..3 {
+                                mac_ok &= xr(h)[lane] == xl((h + 1) % 3)[lane];
+                                mac_ok &= mr(h)[lane] == ml((h + 1) % 3)[lane];
+                            }
+                            mac_ok &= rxv == r * xv;
+                            mac_ok &= xv == o[0][i].2[k][lane];
+                        }
+                    }
+                }
+            }
+            Outcome::Done(opened, mac_ok)
+        }
+    };
+}
+
+mac_runner!(run_fp31, Fp31, 1);
+mac_runner!(run_fp32, Fp32BitPrime, 1);
+mac_runner!(run_fp25519, Fp25519, 1);
+mac_runner!(run_fp25519x16, Fp25519, 16);
+
+/// (scalar field name, lanes) of the field named in a request
+fn field_lanes(field: &str) -> (&str, usize) {
+    match field.split_once('x') {
+        Some((f, n)) => (f, n.parse().expect("harness: bad lane count")),
+        None => (field, 1),
+    }
+}
+
+fn size_of_field(field: &str) -> usize {
+    match field_lanes(field).0 {
+        "Fp31" => <Fp31 as Serializable>::Size::USIZE,
+        "Fp32BitPrime" => <Fp32BitPrime as Serializable>::Size::USIZE,
+        "Fp25519" => <Fp25519 as Serializable>::Size::USIZE,
+        f => panic!("harness: unknown field {f}"),
+    }
+}
+
+/// adds `delta` (lanes `d0+d1+…`) to a message of that many field elements
+fn adder(field: &str, delta: &str) -> Box<dyn Fn(&mut [u8]) + Send + Sync> {
+    fn mk<F: Field + Serializable>(delta: &str) -> Box<dyn Fn(&mut [u8]) + Send + Sync> {
+        let d: Vec<F> = lanes_of(delta).iter().map(|l| val::<F>(l)).collect();
+        let sz = F::Size::USIZE;
+        Box::new(move |buf: &mut [u8]| {
+            assert_eq!(buf.len(), sz * d.len());
+            for (i, d) in d.iter().enumerate() {
+                let slot = &mut buf[i * sz..(i + 1) * sz];
+                let v = F::deserialize_from_slice(slot) + *d;
+                v.serialize_to_slice(slot);
+            }
+        })
+    }
+    match field_lanes(field).0 {
+        "Fp31" => mk::<Fp31>(delta),
+        "Fp32BitPrime" => mk::<Fp32BitPrime>(delta),
+        "Fp25519" => mk::<Fp25519>(delta),
+        f => panic!("harness: unknown field {f}"),
+    }
+}
+
+fn run_blocking(field: &str, spec: Spec, interceptor: Option<Arc<Tamper>>, corrupt: Option<usize>) -> Result<Outcome, String> {
+    let field = field.to_string();
+    // honest runs finish within a second or two; a run in which an honest helper stopped may leave the others
+    // waiting for its (never flushed) messages: that hang is an abort, and is not waited for long
+    let secs = if corrupt.is_some() { 12 } else { 60 };
+    block_on_timeout(secs, async move {
+        match field.as_str() {
+            "Fp31" => run_fp31(spec, interceptor, corrupt).await,
+            "Fp32BitPrime" => run_fp32(spec, interceptor, corrupt).await,
+            "Fp25519" => run_fp25519(spec, interceptor, corrupt).await,
+            "Fp25519x16" => run_fp25519x16(spec, interceptor, corrupt).await,
+            f => panic!("harness: unknown field {f}"),
+        }
+    })
+}
+
+fn show_opened(o: &[Vec<String>]) -> String {
+    o.iter().map(|r| r.join(":")).collect::<Vec<_>>().join(",")
+}
+
+/// `protocol/run-3/malicious_protocol/u0/upgrade` -> `malicious_protocol/u0/upgrade`
+fn strip_run(g: &str) -> String {
+    g.split('/').filter(|s| !s.is_empty()).skip(2).collect::<Vec<_>>().join("/")
+}
+
+fn exec_mac(req: &str) -> String {
+    let t: Vec<&str> = req.split(' ').collect();
+    let spec = parse_spec(&t);
+    match t[0] {
+        "c04.honest" => match run_blocking(t[1], spec, None, None) {
+            Err(e) => e,
+            Ok(Outcome::Abort(_)) => "abort".into(),
+            Ok(Outcome::Done(opened, mac)) => {
+                let o: Vec<_> = opened.iter().map(|x| x.as_ref().unwrap()).collect();
+                if o[0] != o[1] || o[1] != o[2] {
+                    return format!("disagree {}|{}|{}", show_opened(o[0]), show_opened(o[1]), show_opened(o[2]));
+                }
+                format!("ok {} {}", show_opened(o[0]), if mac { "mac" } else { "badmac" })
+            }
+        },
+        "c04.chan" => {
+            let rec = Arc::new(Tamper::recorder());
+            match run_blocking(t[1], spec, Some(rec.clone()), None) {
+                Err(e) => e,
+                Ok(Outcome::Abort(_)) => "abort".into(),
+                Ok(Outcome::Done(..)) => {
+                    let mut agg: BTreeMap<(String, u8, u8), usize> = BTreeMap::new();
+                    for ((g, s, d), n) in rec.seen.lock().unwrap().iter() {
+                        *agg.entry((strip_run(g), *s, *d)).or_insert(0) += n;
+                    }
+                    agg.iter().map(|((g, s, d), n)| format!("{g}|{s}>{d}|{n}")).collect::<Vec<_>>().join(";")
+                }
+            }
+        }
+        "c04.attack" => {
+            let corrupt = t[7].parse::<usize>().unwrap() - 1;
+            let classes: Vec<&str> = t[8].split('&').collect();
+            let dirs: Vec<&str> = t[10].split('&').collect();
+            assert_eq!(classes.len(), dirs.len(), "harness: one direction per class");
+            let size = size_of_field(t[1]);
+            let lanes = field_lanes(t[1]).1;
+            let mut targets = vec![];
+            for (class, dir) in classes.iter().zip(&dirs) {
+                let a = Attack {
+                    corrupt,
+                    class: (*class).to_string(),
+                    target: t[9].parse().unwrap(),
+                    dir: dir.chars().next().unwrap(),
+                };
+                let (suffix, dest, record) = locate(&a);
+                // validator messages are scalar; per-record messages carry one element per lane
+                let scalar = suffix.starts_with("/validate/");
+                let msg = if scalar { size } else { size * lanes };
+                targets.push(Target { suffix, src: corrupt as u8 + 1, dst: dest as u8 + 1, offset: record * msg, size: msg });
+            }
+            let n_targets = targets.len();
+            let scalar_only = targets.iter().all(|x| x.size == size);
+            let delta = if scalar_only { lanes_of(t[11])[0].to_string() } else { t[11].to_string() };
+            let tamper = Arc::new(Tamper::new(targets, adder(t[1], &delta)));
+            let out = run_blocking(t[1], spec, Some(tamper.clone()), Some(corrupt));
+            let hits = tamper.hits.load(Ordering::SeqCst);
+            match out {
+                Err(_) => {
+                    if hits == 0 {
+                        "untouched".into()
+                    } else {
+                        "abort:hang".into()
+                    }
+                }
+                Ok(Outcome::Abort(_)) => {
+                    if hits == 0 {
+                        "untouched".into()
+                    } else {
+                        "abort:error".into()
+                    }
+                }
+                Ok(Outcome::Done(opened, _)) => {
+                    if hits < n_targets {
+                        return "untouched".into();
+                    }
+                    let o: Vec<_> = (0..3).filter(|h| *h != corrupt).map(|h| opened[h].as_ref().unwrap()).collect();
+                    if o[0] != o[1] {
+                        return format!("disagree {}|{}", show_opened(o[0]), show_opened(o[1]));
+                    }
+                    format!("ok {} -", show_opened(o[0]))
+                }
+            }
+        }
+        x => panic!("harness: unknown request {x}"),
+    }
+}
+
+// ------------------------------------------------------------------------------------------ generators
+
+const P32: u128 = 4_294_967_291;
+/// order of the Ristretto group (modulus of Fp25519) minus one, decimal
+const ELL_M1: &str = "7237005577332262213973186563042994240857116359379907606001950938285454250988";
+
+fn rand_val(rng: &mut Rng, field: &str) -> String {
+    match field {
+        "Fp31" => (rng.next_u128() % 31).to_string(),
+        "Fp32BitPrime" => (rng.next_u128() % P32).to_string(),
+        // 124-bit values and a few large ones (canonical: below the group order)
+        _ => {
+            if rng.below(4) == 0 {
+                let mut b = rng.bytes(32);
+                b[31] &= 0x0f;
+                le_to_dec(&b)
+            } else {
+                (rng.next_u128() >> 4).to_string()
+            }
+        }
+    }
+}
+
+fn edge_vals(field: &str) -> Vec<String> {
+    match field {
+        "Fp31" => vec!["0".into(), "1".into(), "30".into(), "15".into(), "16".into()],
+        "Fp32BitPrime" => vec!["0".into(), "1".into(), (P32 - 1).to_string(), (P32 / 2).to_string(), "2147483648".into()],
+        _ => vec!["0".into(), "1".into(), ELL_M1.into(), "2".into(), "340282366920938463463374607431768211455".into()],
+    }
+}
+
+fn nonzero_val(rng: &mut Rng, field: &str) -> String {
+    loop {
+        let v = rand_val(rng, field);
+        if v != "0" {
+            return v;
+        }
+    }
+}
+
+/// number of `u` gates of a program
+fn n_inputs(prog: &str) -> usize {
+    prog.split('.').filter(|g| *g == "u").count()
+}
+
+fn gen_inputs(rng: &mut Rng, field: &str, prog: &str, count: usize, edges_first: bool, nonzero: bool) -> String {
+    let k = n_inputs(prog);
+    let (base, lanes) = field_lanes(field);
+    let e = edge_vals(base);
+    (0..count)
+        .map(|i| {
+            (0..k)
+                .map(|j| {
+                    (0..lanes)
+                        .map(|l| {
+                            if edges_first && i < e.len() {
+                                e[(i + j * 2 + l) % e.len()].clone()
+                            } else if nonzero {
+                                nonzero_val(rng, base)
+                            } else {
+                                rand_val(rng, base)
+                            }
+                        })
+                        .collect::<Vec<_>>()
+                        .join("+")
+                })
+                .collect::<Vec<_>>()
+                .join(":")
+        })
+        .collect::<Vec<_>>()
+        .join(",")
+}
+
+const PROGS: [&str; 6] = [
+    "u.u.m0:1",
+    "u",
+    "u.u.m0:1.a2:0.s3:1.n4.m5:2",
+    "u.u.u.a0:1.m3:2.m4:4.s5:0",
+    "u.m0:0.m1:1.m2:0",
+    "u.u.m0:1.m2:1.m3:0.a4:2",
+];
+
+fn k_prog(rng: &mut Rng, field: &str) -> String {
+    format!("u.u.k0:{}.m2:1.k3:{}.a4:0", rand_val(rng, field), edge_vals(field)[2])
+}
+
+#[test]
+fn verif_c04_honest() {
+    run_suite(
+        "c04_honest",
+        |rng, thorough| {
+            let mut out = vec![];
+            for field in ["Fp31", "Fp32BitPrime", "Fp25519"] {
+                // (records_per_batch = active work = 1 is not supported by the gateway: production clamps it to >= 2)
+                // record counts on / around the batch size: partial only batch, exactly one batch, one record into
+                // the next batch, several full batches, partial last batch
+                let shapes: Vec<(usize, usize)> = if field == "Fp25519" && !thorough {
+                    vec![(2, 1), (2, 3), (4, 4), (4, 9), (8, 7)]
+                } else {
+                    vec![(2, 1), (2, 2), (2, 3), (2, 5), (2, 6), (4, 1), (4, 3), (4, 4), (4, 5), (4, 8), (4, 9), (8, 7), (8, 8),
+                        (8, 17), (16, 15), (16, 16), (16, 33)]
+                };
+                for (n, (rpb, count)) in shapes.iter().enumerate() {
+                    let prog = if n % 4 == 3 { k_prog(rng, field) } else { PROGS[n % PROGS.len()].to_string() };
+                    let inputs = gen_inputs(rng, field, &prog, *count, n % 2 == 0, false);
+                    out.push(format!("c04.honest {field} {rpb} {count} {} {prog} {inputs}", rng.below(1 << 30)));
+                }
+                let extra = if thorough { 60 } else { 4 };
+                for _ in 0..extra {
+                    let rpb = 2usize << rng.usize_below(5);
+                    let count = 1 + rng.usize_below(3 * rpb + 2);
+                    let prog = if rng.below(3) == 0 { k_prog(rng, field) } else { rng.pick(&PROGS).to_string() };
+                    let inputs = gen_inputs(rng, field, &prog, count, false, false);
+                    out.push(format!("c04.honest {field} {rpb} {count} {} {prog} {inputs}", rng.below(1 << 30)));
+                }
+                if thorough {
+                    for (rpb, count) in [(64, 129), (128, 128), (256, 300)] {
+                        let prog = "u.u.m0:1";
+                        let inputs = gen_inputs(rng, field, prog, count, true, false);
+                        out.push(format!("c04.honest {field} {rpb} {count} {} {prog} {inputs}", rng.below(1 << 30)));
+                    }
+                }
+                // channels used by a run
+                for (rpb, count, prog) in [(2usize, 3usize, "u.u.m0:1"), (4, 4, "u.u.m0:1.a2:0.m3:2"), (2, 5, "u")] {
+                    let inputs = gen_inputs(rng, field, prog, count, false, false);
+                    out.push(format!("c04.chan {field} {rpb} {count} {} {prog} {inputs}", rng.below(1 << 30)));
+                }
+            }
+            // the production shape: 16-lane Fp25519 shares (eval_dy_prf)
+            let vshapes: &[(usize, usize, &str)] = if thorough {
+                &[(2, 1, "u.u.m0:1"), (2, 3, "u.u.m0:1.a2:0.m3:1"), (4, 4, "u"), (4, 9, "u.u.m0:1.m2:1.m3:0.a4:2"), (8, 5, "u.m0:0.n1")]
+            } else {
+                &[(2, 1, "u.u.m0:1"), (2, 3, "u.u.m0:1.a2:0.m3:1"), (4, 5, "u.m0:0.n1")]
+            };
+            for (n, (rpb, count, prog)) in vshapes.iter().enumerate() {
+                let inputs = gen_inputs(rng, "Fp25519x16", prog, *count, n == 0, false);
+                out.push(format!("c04.honest Fp25519x16 {rpb} {count} {} {prog} {inputs}", rng.below(1 << 30)));
+            }
+            let inputs = gen_inputs(rng, "Fp25519x16", "u.u.m0:1", 3, false, false);
+            out.push(format!("c04.chan Fp25519x16 2 3 {} u.u.m0:1 {inputs}", rng.below(1 << 30)));
+            out
+        },
+        exec_mac,
+    );
+}
+
+/// per-lane offsets (16 lanes) of the vectorised attacks
+fn lane_deltas(rng: &mut Rng, pattern: usize) -> String {
+    let mut d = vec!["0".to_string(); 16];
+    match pattern {
+        // +d on one lane, -d on another: the offsets cancel in the sum over the lanes
+        0 => {
+            d[0] = "1".into();
+            d[1] = ELL_M1.into();
+        }
+        1 => {
+            let i = rng.usize_below(16);
+            let j = (i + 1 + rng.usize_below(15)) % 16;
+            let v = (rng.next_u128() >> 4) + 1;
+            d[i] = v.to_string();
+            // ell - v
+            let ell_m1 = dec_to_le(ELL_M1, 32);
+            let mut neg = Fp25519::deserialize_from_slice(&ell_m1) + Fp25519::ONE;
+            neg = neg - val::<Fp25519>(&v.to_string());
+            d[j] = show::<Fp25519>(&neg);
+        }
+        // three lanes summing to zero: 1 + 1 + (ell - 2)
+        2 => {
+            d[3] = "1".into();
+            d[7] = "1".into();
+            d[15] = show::<Fp25519>(&(val::<Fp25519>(ELL_M1) - Fp25519::ONE));
+        }
+        // the same offset on every lane
+        3 => {
+            let v = nonzero_val(rng, "Fp25519");
+            for x in d.iter_mut() {
+                *x = v.clone();
+            }
+        }
+        // a single lane
+        _ => {
+            d[rng.usize_below(16)] = nonzero_val(rng, "Fp25519");
+        }
+    }
+    d.join("+")
+}
+
+#[test]
+fn verif_c04_attack() {
+    run_suite(
+        "c04_attack",
+        |rng, thorough| {
+            let mut out = vec![];
+            // false accepts have probability <= 3/|F|: only the large fields are sampled (Fp31 is analysed in Lean)
+            let fields: &[&str] = if thorough { &["Fp32BitPrime", "Fp25519"] } else { &["Fp32BitPrime"] };
+            let prog = "u.u.m0:1.a2:0.m3:1";
+            // (class, is a reveal-type class)
+            let classes: [(&str, bool); 13] = [
+                ("upgrade:0", false), ("upgrade:1", false), ("mulx:2", false), ("mulrx:2", false), ("mulx:4", false),
+                ("mulrx:4", false), ("propu", false), ("propw", false), ("revealr", true), ("czmul", false),
+                ("czreveal", true), ("reveal:2", true), ("reveal:4", true),
+            ];
+            for field in fields {
+                let reps = if thorough { 4 } else { 1 };
+                for rep in 0..reps {
+                    for (ci, (class, is_reveal)) in classes.iter().enumerate() {
+                        // first batch and a later batch (the last one, so that nobody waits on a batch that
+                        // can no longer complete)
+                        for later in [false, true] {
+                            let rpb = [2usize, 4, 8][(ci + rep) % 3];
+                            let batches = if later { 2 + rng.usize_below(2) } else { 1 + rng.usize_below(2) };
+                            let last_len = 1 + rng.usize_below(rpb);
+                            let count = (batches - 1) * rpb + last_len;
+                            let batch = if later { batches - 1 } else { 0 };
+                            let per_record = !matches!(*class, "propu" | "propw" | "revealr" | "czmul" | "czreveal");
+                            let target = if per_record {
+                                let lo = batch * rpb;
+                                let hi = ((batch + 1) * rpb).min(count);
+                                lo + rng.usize_below(hi - lo)
+                            } else {
+                                batch
+                            };
+                            let corrupt = 1 + (ci + rep + usize::from(later)) % 3;
+                            let dir = if *is_reveal { if rng.bool() { "L" } else { "R" } } else { "-" };
+                            let delta = match (ci + rep) % 3 {
+                                0 => "1".to_string(),
+                                1 => if *field == "Fp25519" { ELL_M1.to_string() } else { (P32 - 1).to_string() },
+                                _ => nonzero_val(rng, field),
+                            };
+                            let inputs = gen_inputs(rng, field, prog, count, false, true);
+                            out.push(format!(
+                                "c04.attack {field} {rpb} {count} {} {prog} {inputs} {corrupt} {class} {target} {dir} {delta}",
+                                rng.below(1 << 30)
+                            ));
+                        }
+                    }
+                }
+            }
+            // two coordinated messages: the error on a multiplication message and the same error on the copy the
+            // deviating helper later opens towards its right peer, so that the two-copy check of the opening has
+            // nothing to complain about — only the MAC check can catch it. The attacked product is not consumed
+            // by a later gate.
+            for field in fields {
+                for (k, (prog, classes, dirs)) in [
+                    ("u.u.m0:1", "mulx:2&reveal:2", "-&R"),
+                    ("u.u.m0:1.a2:0", "mulx:2&reveal:2&reveal:3", "-&R&R"),
+                    ("u.u.u.m0:1.m3:2", "mulx:4&reveal:4", "-&R"),
+                ]
+                .iter()
+                .enumerate()
+                {
+                    for later in [false, true] {
+                        let rpb = [2usize, 4][k % 2];
+                        let count = if later { rpb + 1 + rng.usize_below(rpb) } else { 1 + rng.usize_below(rpb) };
+                        let target = if later { rpb + rng.usize_below(count - rpb) } else { rng.usize_below(count) };
+                        let corrupt = 1 + (k + usize::from(later)) % 3;
+                        let delta = nonzero_val(rng, field);
+                        let inputs = gen_inputs(rng, field, prog, count, false, true);
+                        out.push(format!(
+                            "c04.attack {field} {rpb} {count} {} {prog} {inputs} {corrupt} {classes} {target} {dirs} {delta}",
+                            rng.below(1 << 30)
+                        ));
+                    }
+                }
+            }
+            // vectorised shares (16 lanes of Fp25519, the shape of eval_dy_prf): lane-correlated errors
+            let field = "Fp25519x16";
+            let vcases: [(&str, &str, &str); 6] = [
+                ("u.u.m0:1", "mulx:2&reveal:2", "-&R"),
+                ("u.u.m0:1", "mulx:2", "-"),
+                ("u.u.m0:1", "mulrx:2", "-"),
+                ("u.u.m0:1", "upgrade:0", "-"),
+                ("u", "upgrade:0", "-"),
+                ("u.u.m0:1.a2:0.m3:1", "mulx:4&reveal:4", "-&R"),
+            ];
+            let patterns = if thorough { 5 } else { 3 };
+            for (k, (prog, classes, dirs)) in vcases.iter().enumerate() {
+                for pattern in 0..patterns {
+                    if !thorough && k >= 2 && pattern != k % 3 {
+                        continue;
+                    }
+                    let later = (k + pattern) % 2 == 1;
+                    let rpb = 2usize;
+                    let count = if later { 3 } else { 1 + rng.usize_below(2) };
+                    let target = if later { 2 } else { rng.usize_below(count) };
+                    let corrupt = 1 + (k + pattern) % 3;
+                    let delta = lane_deltas(rng, pattern);
+                    let inputs = gen_inputs(rng, field, prog, count, false, true);
+                    out.push(format!(
+                        "c04.attack {field} {rpb} {count} {} {prog} {inputs} {corrupt} {classes} {target} {dirs} {delta}",
+                        rng.below(1 << 30)
+                    ));
+                }
+            }
+            out
+        },
+        exec_mac,
+    );
+}
+
+// ------------------------------------------------------------------------------------------ reveal
+
+macro_rules! reveal_runner {
+    ($name:ident, $f:ty) => {
+        async fn $name(seed: u64, x: &str, excluded: Option<usize>, tamper: Option<Arc<Tamper>>) -> String {
+            type F = $f;
+            let mut config = TestWorldConfig::default().with_seed(seed);
+            if let Some(t) = tamper {
+                config.stream_interceptor = t;
+            }
+            let world = TestWorld::new_with(config);
+            let mut rng = Rng(seed ^ 0xC04);
+            let sh = share3::<F>(&mut rng, val::<F>(x));
+            let futs = world.malicious_contexts().into_iter().zip(sh).map(|(ctx, s)| async move {
+                let ctx = ctx.narrow("c04reveal").set_total_records(1usize);
+                match malicious_reveal(ctx, RecordId::FIRST, excluded.map(|e| Role::all()[e]), &s).await {
+                    Ok(Some(v)) => format!("ok:{}", show::<F>(&F::from_array(&v))),
+                    Ok(None) => "none".to_string(),
+                    Err(Error::MaliciousRevealFailed) => "fail".to_string(),
+                    Err(e) => format!("err:{}", kind(&e)),
+                }
+            });
+            futures::future::join_all(futs).await.join(",")
+        }
+    };
+}
+
+reveal_runner!(reveal_fp31, Fp31);
+reveal_runner!(reveal_fp32, Fp32BitPrime);
+reveal_runner!(reveal_fp25519, Fp25519);
+
+fn opt_role(s: &str) -> Option<usize> {
+    if s == "-" { None } else { Some(s.parse::<usize>().unwrap() - 1) }
+}
+
+fn exec_reveal(req: &str) -> String {
+    let t: Vec<&str> = req.split(' ').collect();
+    let field = t[1].to_string();
+    let seed: u64 = t[2].parse().unwrap();
+    let x = t[3].to_string();
+    let excluded = opt_role(t[4]);
+    let tamper = match (opt_role(t[5]), opt_role(t[6])) {
+        (Some(at), Some(dest)) => {
+            let size = size_of_field(&field);
+            Some(Arc::new(Tamper::new(
+                vec![Target { suffix: "/c04reveal".into(), src: at as u8 + 1, dst: dest as u8 + 1, offset: 0, size }],
+                adder(&field, t[7]),
+            )))
+        }
+        _ => None,
+    };
+    let r = block_on_timeout(40, async move {
+        match field.as_str() {
+            "Fp31" => reveal_fp31(seed, &x, excluded, tamper).await,
+            "Fp32BitPrime" => reveal_fp32(seed, &x, excluded, tamper).await,
+            "Fp25519" => reveal_fp25519(seed, &x, excluded, tamper).await,
+            f => panic!("harness: unknown field {f}"),
+        }
+    });
+    r.unwrap_or_else(|e| e)
+}
+
+#[test]
+fn verif_c04_reveal() {
+    run_suite(
+        "c04_reveal",
+        |rng, thorough| {
+            let mut out = vec![];
+            for field in ["Fp31", "Fp32BitPrime", "Fp25519"] {
+                let e = edge_vals(field);
+                // honest: full and partial reveal
+                for ex in ["-", "1", "2", "3"] {
+                    for x in [e[0].clone(), e[1].clone(), e[2].clone(), rand_val(rng, field)] {
+                        out.push(format!("c04.reveal {field} {} {x} {ex} - - 0", rng.below(1 << 30)));
+                    }
+                }
+                // every (attacker, destination, excluded) combination with attacker != destination
+                for at in 1..=3usize {
+                    for dest in 1..=3usize {
+                        if at == dest {
+                            continue;
+                        }
+                        for ex in ["-", "1", "2", "3"] {
+                            let reps = if thorough { 4 } else { 1 };
+                            for k in 0..reps {
+                                let delta = match (k + at + dest) % 3 {
+                                    0 => "1".to_string(),
+                                    1 => e[2].clone(),
+                                    _ => nonzero_val(rng, field),
+                                };
+                                let x = if k == 0 { e[(at + dest) % e.len()].clone() } else { rand_val(rng, field) };
+                                out.push(format!("c04.reveal {field} {} {x} {ex} {at} {dest} {delta}", rng.below(1 << 30)));
+                            }
+                        }
+                    }
+                }
+                // a zero "error" changes nothing
+                out.push(format!("c04.reveal {field} {} 7 - 2 3 0", rng.below(1 << 30)));
+            }
+            out
+        },
+        exec_reveal,
+    );
+}
